@@ -94,6 +94,36 @@ theorem running_verify_then_sync_restores (gs : List Gen) (g n : Gen) (hlast : g
 theorem f2_old_code_replica_differs :
     afterSync f2World 0 3 (verifyBeforeFix f2In) 2 1 5 ≠ source f2World 5 := by decide
 
+/-! ### Recorded finding: a rollback inside one WAL generation that keeps the last frame
+
+`verify` looks at the WAL prefix before its position through one frame only.  If the database
+file and its WAL are rolled back (while litestream is down) to an earlier raw copy of the same
+generation and a different history is then written past the rollback point, the generation's
+frames before the position are *rewritten* — outside the world of `Model/Verify.lean`, where a
+generation only grows.  When the frame just before the position happens to be byte-identical in
+both histories, the decision cannot differ. -/
+
+/-- In the same generation the decision depends on the frames before the position only through
+    the frame at `endIdx - 1` (and the length of the file). -/
+theorem same_generation_decision_sees_one_frame (i : VIn) (fr : List PFrame)
+    (hs : i.hdrSalt = i.ltx.salt) (hl : fr.length = i.frames.length)
+    (hk : fr[i.ltx.endIdx - 1]? = i.frames[i.ltx.endIdx - 1]?) :
+    verify { i with frames := fr } = verify i := by
+  unfold verify lastPageMatch
+  simp only [hl, hk, hs, beq_self_eq_true]
+  simp
+
+/-- Witness: position 3 in generation 1 (pages 2,3,4 replicated); rolled back to one frame and
+    rewritten with a different page 3 and the same page 4, then page 5.  verify continues at 3;
+    the replica keeps the old page 3. -/
+def rbOld : List (Nat × Nat) := [(2, 10), (3, 11), (4, 12)]
+def rbNew : List Gen := [⟨1, [(2, 10), (3, 99), (4, 12), (5, 50)]⟩]
+def rbIn : VIn := ⟨false, ⟨1, 3, rbOld⟩, 1, overlay rbNew, false, true⟩
+
+theorem rollback_identical_last_frame_undetected :
+    (verify rbIn).snapshot = false ∧ (verify rbIn).idx = 3 ∧
+    writeAll (writeAll (fun _ => 0) rbOld) (continued rbNew (verify rbIn).idx 1) 3 ≠ source rbNew 3 := by decide
+
 /-! Non-vacuity: a world where start-up continues incrementally and one where it snapshots. -/
 example : afterSync [⟨1, [(2, 10), (3, 11), (4, 12), (5, 99)]⟩] 0 3
     (verify ⟨false, ⟨1, 3, [(2, 10), (3, 11), (4, 12)]⟩, 1, [⟨1, 2, 10⟩, ⟨1, 3, 11⟩, ⟨1, 4, 12⟩, ⟨1, 5, 99⟩], false, true⟩) 1 1 5 = 99 := by decide
